@@ -3,7 +3,6 @@ bin/gen-manifest turns this into MANIFEST.json."""
 
 NOT_APPLICABLE = {
     "C18": "reachability of stored tree nodes from the current root over all histories is a property of runtime data, not of code shape",
-    "C38": "soundness of analyser output against all executions on all ledger states is semantic",
     "C46": "semantic equivalence of two WASM programs (before/after instrumentation)",
     "C22": "agreement of typed codecs with generated schemas is a payload-level relation over every value; the only structural clause in reach (ValueKind of manual Categorize impls vs TypeKind of their Describe impls) could not be extracted reliably: type_data bodies build TypeKind through generic helper constructors and derive-expanded impls are indistinguishable from manual ones in MIR; withdrawn rather than weakened (DESIGN.md C22)",
 }
@@ -296,4 +295,11 @@ claim("C42", "guard dominance on the stake-index key, who-may-write table for th
       "active set is the stake-descending sort of the index scan truncated by take(config.max_validators); minted units are exactly "
       "calculate_stake_unit_amount(...) computed before the XRD enters the vault and redeemed XRD exactly calculate_redemption_value(...) computed "
       "before the units are burnt. Proportionality, 'never gains XRD', emission and reward bounds are arithmetic over histories and not decided.",
+      level="other")
+
+claim("C38", "table agreement between the analyser's 'returns nothing' classification and the invocation's Output type alias; conservative default on the unresolved arm",
+      "Decides the conservative-default clauses only: every native invocation the analyser declares to return no resources has an <X>Output type that "
+      "cannot carry a bucket (122 rows on the pinned tree, type aliases read from the type-checked crates); an unresolved invocation yields the "
+      "unknown-resources value, and the worktop receives exactly the invocation's output; resolve_native_invocation is exhaustive. That the declared "
+      "bounds of the 50 non-trivial invocations are right and that executions stay within reported bounds is semantic and not decided.",
       level="other")
